@@ -18,7 +18,12 @@ Enumerated (see c07_shapes.creation_shapes / history_shapes; all counts asserted
                300-point series, number formats.   Zero series is not generated for pie types (quantifier).
   histories  from each chart type and each of 6 representative shapes, every replace_data sequence of
              length <=2 (quick) | <=3 (thorough) over the 6 shapes (one of them has zero series); the same
-             sequences from every chart of cht-replace-data.pptx, cht-chart-type.pptx, cht-series.pptx.
+             sequences from EVERY chart of a supported type in EVERY corpus deck (mc.drivers.fixtures.corpus();
+             92 charts in 20 decks, among them charts whose series PowerPoint re-ordered: c:idx 2,3,0 for
+             c:order 0,1,2); and, from generated 3-series charts whose c:idx/c:order were renumbered
+             harness-side (saved part rewritten with bare lxml, deck re-opened) to {idx 2,3,0/order 0,1,2;
+             idx 0,1,2/order 2,0,1; idx 0,5,6/order 0,1,2}, one replace_data with 2..6 series (shrink, same,
+             grow by 1,2,3) on one chart type per writer family (thorough: every non-pie type).
              Each path is executed from scratch; the LAST transition of a path is the one checked (its
              prefixes are paths of their own), so every distinct transition is checked exactly once.
 
@@ -85,12 +90,19 @@ C = "{%s}" % NS_C
 DATA_TAGS = {C + t for t in ("tx", "cat", "val", "xVal", "yVal", "bubbleSize")}
 PFX = {NS_C: "c", "http://schemas.openxmlformats.org/drawingml/2006/main": "a",
        "http://schemas.openxmlformats.org/officeDocument/2006/relationships": "r"}
-CORPUS_DECKS = ["cht-replace-data.pptx", "cht-chart-type.pptx", "cht-series.pptx"]
+CHART_DECKS3 = ["features/steps/test_files/cht-replace-data.pptx", "features/steps/test_files/cht-chart-type.pptx",
+                "features/steps/test_files/cht-series.pptx"]  # C08's corpus slice
+CORPUS_DECKS = CHART_DECKS3  # kept for callers; C07 itself walks the whole corpus (all_corpus_decks())
 MARK_TITLE = "C07 marker title"
 _bare = etree.XMLParser(remove_blank_text=False, resolve_entities=False)
 
 REPO = os.environ.get("VERIF_REPO", "/repo")
-DECK_DIR = os.path.join(REPO, "features", "steps", "test_files")
+
+
+def all_corpus_decks():
+    """Every .pptx/.pptm shipped in the repository, as paths relative to the repository root."""
+    from mc.drivers import fixtures
+    return [fixtures.corpus_name(p) for p in fixtures.corpus()]
 
 
 # ---- discovery --------------------------------------------------------------------------------------------
@@ -460,18 +472,18 @@ _DECK_BYTES = {}
 
 def _deck_bytes(name):
     if name not in _DECK_BYTES:
-        with open(os.path.join(DECK_DIR, name), "rb") as f:
+        with open(os.path.join(REPO, name), "rb") as f:
             _DECK_BYTES[name] = f.read()
     return _DECK_BYTES[name]
 
 
-def corpus_charts(types=None):
-    """[(deck, slide index, shape index, chart type name)] for every chart of the three corpus decks whose
+def corpus_charts(types=None, decks=None):
+    """[(deck, slide index, shape index, chart type name)] for every chart of the given corpus decks whose
     chart type is one of the supported (writable) types; the 3-D area charts of cht-chart-type.pptx are
     outside the property's "every supported chart type" (their series cannot even be read)."""
     from pptx import Presentation
     out = []
-    for deck in CORPUS_DECKS:
+    for deck in (CHART_DECKS3 if decks is None else decks):
         prs = Presentation(io.BytesIO(_deck_bytes(deck)))
         for si, sl in enumerate(prs.slides):
             for hi, sh in enumerate(sl.shapes):
@@ -499,6 +511,50 @@ class Slides:
 
     def reset(self):
         self.slide = None
+
+
+PERMS = [
+    {"idx": [2, 3, 0], "order": [0, 1, 2]},   # what PowerPoint leaves after series were re-ordered
+    {"idx": [0, 1, 2], "order": [2, 0, 1]},   # document order differs from c:order sequence
+    {"idx": [0, 5, 6], "order": [0, 1, 2]},   # gap in c:idx
+]
+PERM_GROWTH = [-1, 0, 1, 2, 3]
+
+
+def perm_specs(kind, growth):
+    """(creation shape with 3 series, replacement shape with 3+growth series)."""
+    if kind == "cat":
+        return ({"k": "cat", "lab": "str", "n": 3, "ns": 3, "vk": "int"},
+                {"k": "cat", "lab": "str", "n": 2, "ns": 3 + growth, "vk": "float"})
+    return ({"k": kind, "lens": [2, 2, 2], "vk": "int"}, {"k": kind, "lens": [2] * (3 + growth), "vk": "float"})
+
+
+def _renumber_series(prs_bytes, perm):
+    """Harness-side: rewrite c:idx / c:order of the series (document order) of the single chart part of a
+    saved deck with bare lxml and the harness's own zip writer."""
+    from mc.drivers.fixtures import write_zip, zip_members
+    members = zip_members(prs_bytes)
+    names = [n for n in members if n.startswith("ppt/charts/chart") and n.endswith(".xml")]
+    if len(names) != 1:
+        raise HarnessError("renumbering expects one chart part, found %d" % len(names))
+    root = etree.fromstring(members[names[0]], _bare)
+    sers = list(root.iter(C + "ser"))
+    if len(sers) != len(perm["idx"]):
+        raise HarnessError("renumbering expects %d series, chart has %d" % (len(perm["idx"]), len(sers)))
+    for ser, i, o in zip(sers, perm["idx"], perm["order"]):
+        ser.find(C + "idx").set("val", str(i))
+        ser.find(C + "order").set("val", str(o))
+    members[names[0]] = etree.tostring(root, xml_declaration=True, encoding="UTF-8", standalone=True)
+    return write_zip(members)
+
+
+def _idx_order_irregular(corpus_entry):
+    from pptx import Presentation
+    deck, si, hi, _ = corpus_entry
+    chart = Presentation(io.BytesIO(_deck_bytes(deck))).slides[si].shapes[hi].chart
+    sers = sers_in_order(part_root(chart))
+    idx = [int(x.find(C + "idx").get("val")) for x in sers]
+    return bool(idx) and idx[-1] != max(idx)
 
 
 def _ctx_add(fam):
@@ -545,7 +601,21 @@ def exec_case(case, emit, part=None, check_all=False, slides=None):
         if part is not None:
             part.outcome(op, label)
 
-    if case["src"] == "gen":
+    if case["src"] == "genperm":
+        from pptx.enum.chart import XL_CHART_TYPE
+        tname = case["type"]
+        kind = S.kind_of(tname)
+        prs = Presentation()
+        slide = prs.slides.add_slide(prs.slide_layouts[6])
+        slide.shapes.add_chart(getattr(XL_CHART_TYPE, tname), 0, 0, 3000000, 2000000, S.build(ops[0]))
+        buf = io.BytesIO()
+        prs.save(buf)
+        prs = Presentation(io.BytesIO(_renumber_series(buf.getvalue(), case["perm"])))
+        chart = next(sh.chart for sh in prs.slides[0].shapes if getattr(sh, "has_chart", False))
+        steps = ops[1:]
+        where = "%s created with %s, series renumbered c:idx %s c:order %s and re-opened" % (
+            tname, _spec_brief(ops[0]), case["perm"]["idx"], case["perm"]["order"])
+    elif case["src"] == "gen":
         from pptx.enum.chart import XL_CHART_TYPE
         tname = case["type"]
         fam, kind = S.family_of(tname), S.kind_of(tname)
@@ -696,6 +766,10 @@ def _case_of(item):
         t = _TYPES[item[1]]
         H = _HIST[S.kind_of(t)]
         return {"src": "gen", "type": t, "ops": [H[i] for i in item[2]], "plant": True}
+    if mode == "p":
+        t = _TYPES[item[1]]
+        a, b = perm_specs(S.kind_of(t), PERM_GROWTH[item[3]])
+        return {"src": "genperm", "type": t, "perm": PERMS[item[2]], "ops": [a, b], "plant": True}
     deck, si, hi, tname = _CORPUS[item[1]]
     H = _HIST[S.kind_of(tname)]
     return {"src": "corpus", "deck": deck, "slide": si, "shape": hi, "ops": [H[i] for i in item[2]], "plant": True}
@@ -729,7 +803,7 @@ def hash_item(item):
 
 
 def _case_brief(case):
-    head = case["type"] if case["src"] == "gen" else "%s#%d.%d" % (case["deck"], case["slide"], case["shape"])
+    head = case["type"] if case["src"] != "corpus" else "%s#%d.%d" % (case["deck"], case["slide"], case["shape"])
     return {"chart": head, "ops": [_spec_brief(s) for s in case["ops"]]}
 
 
@@ -748,11 +822,16 @@ def run(ctx):
     _TYPES = writable_types()
     if len(_TYPES) < 29:
         raise HarnessError("only %d writable chart types discovered (floor 29): %s" % (len(_TYPES), _TYPES))
-    for deck in CORPUS_DECKS:
-        _deck_bytes(deck)
-    _CORPUS = corpus_charts(set(_TYPES))
-    if len(_CORPUS) < 40:
-        raise HarnessError("only %d corpus charts found (floor 40)" % len(_CORPUS))
+    decks = all_corpus_decks()
+    _CORPUS = corpus_charts(set(_TYPES), decks)
+    used = {c[0] for c in _CORPUS}
+    for deck in list(_DECK_BYTES):
+        if deck not in used:
+            del _DECK_BYTES[deck]  # keep only decks that hold charts in the forked workers
+    if len(_CORPUS) < 80:
+        raise HarnessError("only %d corpus charts found (floor 80)" % len(_CORPUS))
+    if not any(_idx_order_irregular(c) for c in _CORPUS):
+        raise HarnessError("no corpus chart with re-ordered series (c:idx sequence != c:order sequence) found")
     max_len = 3 if ctx.thorough else 2
 
     items = []
@@ -785,7 +864,19 @@ def run(ctx):
         items.extend(("k", ci, q) for q in seqs)
     expected_corpus = len(_CORPUS) * n_seq
 
-    total = expected_creation + expected_hist + expected_corpus
+    # generated charts whose series numbering is irregular (renumbered harness-side), then grown/shrunk
+    fam_first = {}
+    for ti, t in enumerate(_TYPES):
+        if not S.needs_series(t):  # the pie writer keeps one series only
+            fam_first.setdefault(S.family_of(t), ti)
+    perm_types = [ti for ti, t in enumerate(_TYPES) if not S.needs_series(t)] if ctx.thorough else sorted(fam_first.values())
+    for ti in perm_types:
+        for pi in range(len(PERMS)):
+            for gi in range(len(PERM_GROWTH)):
+                items.append(("p", ti, pi, gi))
+    expected_perm = len(perm_types) * len(PERMS) * len(PERM_GROWTH)
+
+    total = expected_creation + expected_hist + expected_corpus + expected_perm
     if len(items) != total:
         raise HarnessError("item list %d != closed form %d" % (len(items), total))
     fanout(ctx, _work, ctx.rotate(items))
@@ -796,6 +887,8 @@ def run(ctx):
     ctx.extra["creation_inputs"] = expected_creation
     ctx.extra["generated_history_paths"] = expected_hist
     ctx.extra["corpus_history_paths"] = expected_corpus
+    ctx.extra["corpus_decks_with_charts"] = len({c[0] for c in _CORPUS})
+    ctx.extra["renumbered_series_paths"] = expected_perm
     ctx.extra["history_length_bound"] = max_len
     ctx.sample({"chart": _TYPES[3], "ops": [_spec_brief(_CREATION[("cat", False)][100])]})
     if ctx.counters.get("paths", 0) != total:
